@@ -244,7 +244,7 @@ class Fn:
                 elif k == 'assign':
                     tgt = root_local(node['l'])
                     if tgt and node['l'].get('k') == 'path':
-                        self.binds.setdefault(tgt, []).append(('expr', node['r']))
+                        self.binds.setdefault(tgt, []).append(('assign', node['r'], node))
                 elif k == 'macro' and node['name'].split('::')[-1] in ('write', 'writeln') and node['args']:
                     self._pending_writes.append(node)
                 elif k == 'mcall' and node['method'] in MUTATORS:
